@@ -17,7 +17,9 @@ from .catalogue import _mk_sparse, assume_nonsingular
 PROPERTY = "C11"
 BOUNDS = {
     "quick": dict(n=[2, 3], problems=["standard symmetric", "generalised symmetric (B SPD-constrained)", "standard general (real eig)"],
-                  sorting=["default ascending", "descending custom function"], sparse="n=2, nmodes=2, sigma in {0, symbolic}"),
+                  sorting=["default ascending", "descending custom function"], sparse="n=2, nmodes=2, sigma in {0, symbolic}",
+                  histories="one response per module; a second response with another shift / another B (sparse); a fixed symmetric "
+                            "matrix first and the item's matrix afterwards in the same input signal (dense, class change)"),
     "thorough": dict(n=[2, 3], problems="quick + generalised general", sorting="quick + by-absolute-value", sparse="n=3, nmodes 1..3"),
 }
 OUTSIDE = ["that LAPACK/ARPACK deliver eigenpairs at all, and 'closest to the shift' (contract of the libraries)",
